@@ -22,8 +22,10 @@ Two layers.
   what the driver runs against the real interpreter.  Recursion is by fuel on
   the nesting depth; running out sets `St.oof`, printed as `FUEL`.
 
-`deferFn` is modelled AFTER fixes/C21-defer-ok-exception.patch (a callback
-that succeeds contributes no exception).
+`deferFn` is modelled AFTER fixes/C21-defer-ok-exception.patch (c66e461: a
+callback that succeeds contributes no exception) and `elem.Set` AFTER
+fixes/C14-element-set-stale-containers.patch (798ebe2: the container is read
+when the element is set, not when the lvalue was dereferenced).
 
 Everything is an event writer: results carry the events they emitted, the
 log is their concatenation (a monotone history by construction).
@@ -133,19 +135,22 @@ def LV.head : LV → VarId
   | .var x => x
   | .elem x _ => x
 
-/-- `derefLValue`: an element variable (`vars.MakeElement`) captures the
-container as it is NOW (`assocers[0] = v.Get()`). -/
+/-- `derefLValue`: the variable, or an element variable (`vars.MakeElement`).
+Since `fix: eval: element assignment uses the variable's current value`
+(798ebe2) the element variable holds only the head variable and the index;
+`elem.Set` reads the container when it is called (`elemAssocers`).  With a
+single index `MakeElement` itself cannot fail. -/
 inductive Ref where
   | var (x : VarId)
-  | elem (x : VarId) (base : Option Val) (i : Nat)
+  | elem (x : VarId) (i : Nat)
 
 def Ref.head : Ref → VarId
   | .var x => x
-  | .elem x _ _ => x
+  | .elem x _ => x
 
-def deref (s : St) : LV → Ref
+def deref (_ : St) : LV → Ref
   | .var x => .var x
-  | .elem x i => .elem x (s.store x) i
+  | .elem x i => .elem x i
 
 /-- `vals.Assoc(container, i, v)` for the values in play: a list with a valid
 index and a string element.  (Anything else is an error or excluded by the
@@ -175,8 +180,9 @@ def refSet (c : Cfg) (r : Ref) (v : Val) (s : St) : R :=
   | .var x =>
     let q := varSet c x v s
     ⟨q.st, q.ev, if q.ok then none else some (.setFail x)⟩
-  | .elem x base i =>
-    match assoc base i v with
+  | .elem x i =>
+    -- `elem.Set`: `assocers[0] = ev.variable.Get()` NOW, then `vals.Assoc`, then `variable.Set`
+    match assoc (s.store x) i v with
     | none => ⟨s, [], some .elemErr⟩
     | some v' =>
       let q := varSet c x v' s
